@@ -26,6 +26,7 @@ FINISH_HOOKS = {"http": ("error",), "httpresp": ("response",), "httperr": ("erro
                 "tcp": ("tcp_end",), "tcperr": ("tcp_error",), "udp": ("udp_end",), "dns": ("dns_error",),
                 "dnsresp": ("dns_response",)}
 
+ERROR_HOOK = {"http": "error", "tcp": "tcp_error", "udp": "udp_error", "dns": "dns_error"}
 _SCRATCH = None
 
 
@@ -91,6 +92,9 @@ class _Run:
         self.path = os.path.join(self.dir, "flows.mitm")
         self.ends: list[int] = []  # record end offsets announced in `written` events
         self.sid_by_flow_id: dict[str, int] = {}
+        self.sid_by_state: dict[str, int] = {}
+        self.is_open = False
+        self.nopen = 0
         self.kind_by_flow_id: dict[str, str] = {}
         self.fo = None
         self.writer = None
@@ -127,7 +131,7 @@ class _Run:
         flows = []
         for kind in kinds:
             f = fg.make_flow(kind, self.rng, rich=self.sc.get("rich", True), small=self.sc.get("small", True))
-            self.sid_by_flow_id[f.id] = self.intern(fg.safe_key(f))
+            self._sid(f)
             self.kind_by_flow_id[f.id] = kind
             flows.append(f)
         sa = save.Save()
@@ -145,65 +149,123 @@ class _Run:
             self.fo.close()
 
     # -- stream saving through the Save addon ----------------------------------------------------------------
-    def stream_open(self, append=False):
+    def ensure_addon(self):
         from mitmproxy.addons import save
         from mitmproxy.test import taddons
 
-        self.sa = save.Save()
-        self.tctx = taddons.context(self.sa)
+        if self.sa is None:
+            self.sa = save.Save()
+            self.tctx = taddons.context(self.sa)
+
+    def stream_open(self, append=False):
+        """Option update save_stream_file = path ("+path" when resuming / appending)."""
+        self.ensure_addon()
         self.tctx.configure(self.sa, save_stream_file=("+" if append else "") + self.path)
+        self.is_open = True
+        self.nopen += 1
+
+    def open(self):
+        if self.is_open:
+            return False
+        resume = self.nopen > 0
+        self.stream_open(append=resume)
+        self._observe_new_records()
+        self.trace.append({"k": "hook", "name": "resume" if resume else "open"})
+        self._disk()
+        return True
+
+    def _sid(self, f) -> int:
+        """State id of the flow as it is NOW; remembered by canonical state so that records found on disk with the
+        reference codec can be attributed to the state they were written with."""
+        sid = self.intern(fg.safe_key(f))
+        self.sid_by_state[fg.canon(f.get_state())] = sid
+        return sid
 
     def _observe_new_records(self):
         """`written` events for the complete records that appeared ON DISK since the last look (reference framing)."""
+        if not os.path.exists(self.path):
+            return
         with open(self.path, "rb") as fh:
             image = fh.read()
         known = self.ends[-1] if self.ends else 0
         recs, _stop = fg.ref_records(image[known:])
         for a, b in recs:
+            fid, sid = None, None
             try:
-                fid = fg.ref_parse(image[known + a: known + b]).get("id")
+                tree = fg.ref_parse(image[known + a: known + b])
+                fid = tree.get("id")
+                sid = self.sid_by_state.get(fg.canon(tree))
             except Exception:  # noqa: BLE001
-                fid = None
-            sid = self.sid_by_flow_id.get(fid) or self.intern("unknown-record:%r" % (fid,))
+                pass
+            if sid is None:
+                sid = self.intern("unknown-record:%r:%d" % (fid, known + b))
             self.ends.append(known + b)
             self.trace.append({"k": "written", "s": sid, "t": self.kind_by_flow_id.get(fid, "unknown"), "to": known + b})
 
     def _disk(self):
+        if not os.path.exists(self.path):
+            return
         with open(self.path, "rb") as fh:
             ids, end, exc = fg.read_image(fh, self.intern)
         self.trace.append({"k": "disk", "ids": ids, "end": end, "exc": exc})
 
-    def start(self, kind):
-        if self.sa is None:
-            self.stream_open()
+    def start(self, kind, hook=True):
+        self.ensure_addon()
         f = fg.make_flow(kind, self.rng, rich=self.sc.get("rich", True), small=self.sc.get("small", True))
         f.live = True
-        sid = self.intern(fg.safe_key(f))
-        self.sid_by_flow_id[f.id] = sid
+        if kind not in ("httperr", "tcperr") and f.error is not None:
+            f.error = None  # the error, if any, arrives with the second completion
+        self._sid(f)
         self.kind_by_flow_id[f.id] = kind
-        self.flows.append([f, kind, "active"])
-        getattr(self.sa, START_HOOK[kind])(f)
+        self.flows.append([f, kind, "active" if self.is_open else "early"])
+        if hook:
+            getattr(self.sa, START_HOOK[kind])(f)
         self._observe_new_records()
-        self.trace.append({"k": "hook", "name": "start"})
-        self._disk()
+        self.trace.append({"k": "hook", "name": "start" if self.is_open else "early_start"})
+        if self.nopen > 0:
+            self._disk()
 
     def finish(self, i):
-        if self.sa is None or not (1 <= i <= len(self.flows)) or self.flows[i - 1][2] != "active":
+        if self.sa is None or not self.is_open or not (1 <= i <= len(self.flows)) \
+                or self.flows[i - 1][2] not in ("active", "early", "stopped"):
             return False
         f, kind, _ = self.flows[i - 1]
+        f.metadata["completed"] = "first"  # the flow is not what it was at its start hook (the response arrived)
+        sid = self._sid(f)
         for h in FINISH_HOOKS[kind]:
             getattr(self.sa, h)(f)
         self.flows[i - 1][2] = "finished"
         self._observe_new_records()
-        self.trace.append({"k": "finished", "s": self.sid_by_flow_id[f.id], "t": kind})
+        self.trace.append({"k": "finished", "s": sid, "t": kind})
+        self._disk()
+        return True
+
+    def refinish(self, i):
+        """A second completion of the same flow: the error hook after the response/end hook."""
+        from mitmproxy import flow
+
+        if self.sa is None or not self.is_open or not (1 <= i <= len(self.flows)) or self.flows[i - 1][2] != "finished":
+            return False
+        f, kind, _ = self.flows[i - 1]
+        f.error = flow.Error("connection lost after the response", 946681299.0)
+        f.metadata["completed"] = "second"
+        sid = self._sid(f)
+        getattr(self.sa, ERROR_HOOK[fg.FLOW_TYPE[kind]])(f)
+        self.flows[i - 1][2] = "finished2"
+        self._observe_new_records()
+        self.trace.append({"k": "hook", "name": "second_completion"})
+        self.trace.append({"k": "finished", "s": sid, "t": kind})
         self._disk()
         return True
 
     def done(self):
-        if self.sa is None or self.closed:
+        if self.sa is None or not self.is_open:
             return False
         self.tctx.configure(self.sa, save_stream_file=None)
-        self.closed = True
+        self.is_open = False
+        for fl in self.flows:
+            if fl[2] == "active":
+                fl[2] = "stopped"
         self._observe_new_records()
         self.trace.append({"k": "hook", "name": "done"})
         self._disk()
@@ -217,13 +279,13 @@ class _Run:
             w = FlowWriter(fo)
             for kind in kinds:
                 f = fg.make_flow(kind, self.rng, rich=True, small=True)
-                sid = self.intern(fg.safe_key(f))
+                sid = self._sid(f)
                 w.add(f)
                 self.ends.append(fo.tell())
                 self.trace.append({"k": "written", "s": sid, "t": kind, "to": self.ends[-1]})
                 self.trace.append({"k": "finished", "s": sid, "t": kind})
         self.stream_open(append=True)
-        self.trace.append({"k": "hook", "name": "start"})
+        self.trace.append({"k": "hook", "name": "open"})
         self._disk()
 
     # -- crash images ------------------------------------------------------------------------------------------
@@ -247,7 +309,7 @@ class _Run:
         try:
             if self.fo is not None and not self.fo.closed:
                 self.fo.close()
-            if self.sa is not None and not self.closed:
+            if self.sa is not None and self.is_open:
                 self.tctx.configure(self.sa, save_stream_file=None)
             if self.tctx is not None:
                 self.tctx.__exit__(None, None, None)
@@ -262,8 +324,8 @@ class Check(core.PropertyCheck):
     MON = "Mon_FlowCrash"
     REQUIRED_WITNESSES = ("crash_zero", "crash_boundary", "crash_mid", "crash_mid_after_complete", "recover_clean",
                           "recover_fre", "recover_some_then_fre", "disk_check", "disk_with_finished", "stream_finish",
-                          "start", "done") + KINDS
-    REQUIRED_ACTIONS = ("SaveAdd", "SaveClose", "Start", "Finish", "Done", "Crash", "Recover")
+                          "open", "resume", "start", "early_start", "second_completion", "done") + KINDS
+    REQUIRED_ACTIONS = ("OpenStream", "Start", "Finish", "Done")  # per model run; the others: see REQUIRED_WITNESSES
     PROCS = 4
     LEVEL_NOTE = ("crash = truncation of the byte stream; the model enumerates framing parts per record, the harness sweeps every byte offset of sampled files; no fsync/torn-block claim")
     ASSUMPTIONS = (
@@ -284,24 +346,31 @@ class Check(core.PropertyCheck):
         return {}
 
     def model_constants(self, tier):
-        if tier == "quick":
-            return {"Kinds": frozenset(QUICK_KINDS), "Modes": frozenset({"save", "stream"}), "MaxFlows": 2,
-                    "MaxCrash": 1, "OuterMapped": OUTER_MAPPED}
+        both = frozenset({"save", "stream"})
+        base = {"Modes": both, "MaxOpen": 1, "AllowRefinish": False, "OuterMapped": OUTER_MAPPED}
+        if tier == "quick":        # crash half: every framing part of every record; streaming switched on once
+            return base | {"Kinds": frozenset(QUICK_KINDS), "MaxFlows": 2, "MaxCrash": 1}
+        if tier == "quick_life":   # stream life cycle: early starts, stop + resume, second completion; no crashes
+            return base | {"Kinds": frozenset(("httpresp", "tcp")), "Modes": frozenset({"stream"}), "MaxFlows": 2,
+                           "MaxCrash": 0, "MaxOpen": 2, "AllowRefinish": True}
         if tier == "dumped":
-            return {"Kinds": frozenset(("httpresp", "ws", "tcp", "udp", "dnsresp")), "Modes": frozenset({"save", "stream"}),
-                    "MaxFlows": 2, "MaxCrash": 1, "OuterMapped": OUTER_MAPPED}
+            return base | {"Kinds": frozenset(("httpresp", "ws", "tcp", "udp", "dnsresp")), "MaxFlows": 2, "MaxCrash": 1}
+        if tier == "life":
+            return base | {"Kinds": frozenset(("httpresp", "ws", "tcp", "udp", "dnsresp")), "Modes": frozenset({"stream"}),
+                           "MaxFlows": 2, "MaxCrash": 0, "MaxOpen": 2, "AllowRefinish": True}
         if tier == "sim":
-            return {"Kinds": frozenset(KINDS), "Modes": frozenset({"save", "stream"}), "MaxFlows": 4, "MaxCrash": 2,
-                    "OuterMapped": OUTER_MAPPED}
-        return {"Kinds": frozenset(("httpresp", "ws", "tcp", "dnsresp")), "Modes": frozenset({"save", "stream"}),
-                "MaxFlows": 3, "MaxCrash": 1, "OuterMapped": OUTER_MAPPED}  # exhaustive, not dumped
+            return base | {"Kinds": frozenset(KINDS), "MaxFlows": 4, "MaxCrash": 2, "MaxOpen": 2, "AllowRefinish": True}
+        return base | {"Kinds": frozenset(("httpresp", "tcp", "dnsresp")), "MaxFlows": 3, "MaxCrash": 1, "MaxOpen": 2,
+                       "AllowRefinish": True}  # exhaustive, not dumped
 
     def model_runs(self, ctx):
         if ctx.quick:
-            return [ctx.model_check(self.MODEL, self.model_constants("quick"), dump=True, timeout=900)]
+            return [ctx.model_check(self.MODEL, self.model_constants("quick"), dump=True, timeout=900),
+                    ctx.model_check(self.MODEL, self.model_constants("quick_life"), dump=True, timeout=900, tag="_life")]
         big = ctx.model_check(self.MODEL, self.model_constants("thorough"), dump=False, tag="_big")
         small = ctx.model_check(self.MODEL, self.model_constants("dumped"), dump=True, timeout=1500)
-        return [small, big]
+        life = ctx.model_check(self.MODEL, self.model_constants("life"), dump=True, timeout=1500, tag="_life")
+        return [small, life, big]
 
     @staticmethod
     def _ops(beh):
@@ -312,6 +381,10 @@ class Check(core.PropertyCheck):
                 ops.append(["save_add", args[0]])
             elif name == "SaveClose":
                 ops.append(["save_close"])
+            elif name == "OpenStream":
+                ops.append(["open"])
+            elif name == "Refinish":
+                ops.append(["refinish", args[0]])
             elif name == "Start":
                 ops.append(["start", args[0]])
             elif name == "Finish":
@@ -325,9 +398,8 @@ class Check(core.PropertyCheck):
         return mode, ops
 
     def scenarios(self, ctx, models):
-        g = models[0].graph
         rng = random.Random(ctx.seed + 37)
-        behs = g.edge_cover(ctx.rng, max_len=16, tail=4)
+        behs = models[0].graph.edge_cover(ctx.rng, max_len=16, tail=4) + models[1].graph.edge_cover(ctx.rng, max_len=20, tail=6)
         for b in behs:
             mode, ops = self._ops(b)
             if not ops:
@@ -384,8 +456,14 @@ class Check(core.PropertyCheck):
                     return
             elif op[0] == "save_close":
                 run.save_close()
+            elif op[0] == "open":
+                if not run.open():
+                    return
             elif op[0] == "start":
                 run.start(op[1])
+            elif op[0] == "refinish":
+                if not run.refinish(op[1]):
+                    return
             elif op[0] == "finish":
                 if not run.finish(op[1]):
                     return  # not enabled on the real object: judge what was observed so far
@@ -417,6 +495,7 @@ class Check(core.PropertyCheck):
             if not run.save_cmd(kinds):
                 return
         else:
+            run.open()
             for i, k in enumerate(kinds):
                 run.start(k)
                 run.finish(i + 1)
@@ -432,25 +511,46 @@ class Check(core.PropertyCheck):
             trace.append({"k": "recover", "ids": ids, "end": end, "exc": exc})
 
     def _random(self, sc, run, trace):
+        """Random hook histories: flows that start before streaming is enabled or while it is stopped, flows with no
+        start hook at all, stop + resume (append), several active flows at a stop, error after response."""
         rng = run.rng
         if sc.get("append"):
             run.pre_existing([rng.choice(KINDS) for _ in range(rng.randint(1, 2))])
         n = sc["random"]
         started = 0
-        for _ in range(3 * n):
-            active = [i + 1 for i, f in enumerate(run.flows) if f[2] == "active"]
-            choices = (["start"] * 2 if started < n else []) + [("finish", i) for i in active]
+        for _ in range(4 * n + 4):
+            live = [i + 1 for i, f in enumerate(run.flows) if f[2] in ("active", "early", "stopped")]
+            fin = [i + 1 for i, f in enumerate(run.flows) if f[2] == "finished"]
+            choices = []
+            if started < n:
+                choices += ["start", "start", "silent_start"]
+            if run.is_open:
+                choices += [("finish", i) for i in live] * 2 + [("refinish", i) for i in fin]
+                if run.nopen < 3:
+                    choices.append("done")
+            elif run.nopen < 3:
+                choices += ["open", "open"]
             if not choices:
                 break
             c = rng.choice(choices)
             if c == "start":
                 started += 1
                 run.start(rng.choice(KINDS))
-            else:
+            elif c == "silent_start":  # the flow exists but its start hook never reaches the addon
+                started += 1
+                run.start(rng.choice(KINDS), hook=False)
+                run.flows[-1][2] = "early"
+            elif c == "open":
+                run.open()
+            elif c == "done":
+                run.done()
+            elif c[0] == "finish":
                 run.finish(c[1])
-        if run.sa is None:
+            else:
+                run.refinish(c[1])
+        if run.sa is None or run.nopen == 0:
             return
-        if rng.random() < 0.8:
+        if run.is_open and rng.random() < 0.8:
             run.done()
         image = run.image()
         for _ in range(12):
